@@ -32,6 +32,7 @@ CfgCanon == [null |-> "NONE", empty |-> "NONE", emptylist |-> "NONE", kv |-> "kv
              num1 |-> "num1", str1 |-> "str1", bfalse |-> "bfalse", zero |-> "zero", emptystr |-> "emptystr",
              \* an empty mapping, an empty list and null NESTED inside a config are three different values (only a config that is
              \* empty as a whole has the one canonical spelling, null)
+             big_int |-> "big_int", big_str |-> "big_str",      \* an integer of 19 digits and the same digits as a string
              nest_map |-> "nest_map", nest_list |-> "nest_list", nest_null |-> "nest_null", nest_el_map |-> "nest_el_map", nest_el_null |-> "nest_el_null"]
 MatrixCanon == [nil |-> "NONE", empty |-> "NONE", empty_alloc |-> "NONE", list_ab |-> "list_ab", list_ac |-> "list_ac", setup_os |-> "setup_os", setup_os2 |-> "setup_os2",
                 dim_arch |-> "dim_arch", list_linux |-> "list_linux", shadow_a |-> "shadow_a", shadow_b |-> "shadow_b", adj_tomb_v |-> "adj_tomb_v", adj_tomb_w |-> "adj_tomb_w",
